@@ -1204,11 +1204,25 @@ def _oracle_C18(case, **opts):
                 with warnings.catch_warnings():
                     warnings.simplefilter("ignore")
                     frames = P.tables_to_pandas(case["tables"])
-                    for mode in ("shuffled", "duplicated", "string"):
+                    import pandas as _pd
+                    for mode in ("shuffled", "duplicated", "string", "range_reversed", "range_shifted", "range_step"):
                         fr2 = {}
                         for k, d in frames.items():
                             d = d.copy()
                             n = d.shape[0]
+                            if mode == "range_reversed":
+                                # a RangeIndex that is not 0..n-1 (what d.iloc[::-1] carries): same rows, other labels
+                                d.index = _pd.RangeIndex(n - 1, -1, -1)
+                                fr2[k] = d
+                                continue
+                            if mode == "range_shifted":
+                                d.index = _pd.RangeIndex(100, 100 + n)
+                                fr2[k] = d
+                                continue
+                            if mode == "range_step":
+                                d.index = _pd.RangeIndex(0, 3 * n, 3)
+                                fr2[k] = d
+                                continue
                             if mode == "shuffled":
                                 idx = list(range(n))
                                 rng.shuffle(idx)
